@@ -815,7 +815,7 @@ fn warm_texts(rng: &mut Rng) -> Vec<String> {
     v
 }
 
-type Rows = Vec<Vec<(usize, usize, u16, u16, i16, u32, i32, u16, u16)>>;
+type Rows = Vec<Vec<(usize, usize, u16, u16, i16, u32, i32, u16, u32)>>;
 
 fn strip_rows(mut rows: Rows) -> Rows {
     while rows.last().map(|r| r.is_empty()).unwrap_or(false) { rows.pop(); }
